@@ -225,3 +225,25 @@ def log_of_forest(ts):
     for t in ts:
         out += log_of(t)
     return out
+
+
+# ------------------------------------------------------------------ KIP-31 from the broker's side (the definition)
+# The log gives the messages of a batch absolute offsets a_0 < ... < a_k.  Stored compressed in format 1, every inner
+# message carries r_i = a_i - base (base = the offset the first message of the batch had when it was written; after
+# compaction survivors keep their r_i) and the wrapper carries a_k, the absolute offset of the LAST inner message.
+# A consumer must see the messages at a_0 .. a_k: `abs_log` itself is the expectation, no formula involved.
+def broker_batch_v1(base, attr, ts, key, abs_log):
+    """abs_log = [(absolute offset, kmsg)]"""
+    last = abs_log[-1][0] if abs_log else 0
+    return ("wrap", last, 1, attr, ts, key, [("leaf", a - base, m) for a, m in abs_log])
+
+
+def broker_batch_v0(attr, ts, key, abs_log):
+    last = abs_log[-1][0] if abs_log else 0
+    return ("wrap", last, 0, attr, ts, key, [("leaf", a, m) for a, m in abs_log])
+
+
+def k_tstype(m):
+    """attributes bit 3 of a format-1 message: 0 CreateTime, 1 LogAppendTime"""
+    magic, attr, ts, key, value = m
+    return (attr >> 3) & 1 if magic == 1 else 0
